@@ -357,7 +357,7 @@ def warmup(tier):
 def parts(tier):
     versions = QUICK if tier == "quick" else ALL
     return [Part("table", oracle_table, enumerate_fn=make_enum(versions, tier), exhaustive=(tier == "thorough")),
-            Part("literals", oracle_literal, strategy=literal_strategy(versions), n=2000 if tier == "quick" else 48000)]
+            Part("literals", oracle_literal, strategy=literal_strategy(versions), n=2000 if tier == "quick" else 400000)]
 
 
 def extra_evidence(tier):
